@@ -8,6 +8,8 @@ FailG == {<<1, 0, 2>>}
 \* quick exhaustive: two accounts
 UQ == {<<1, 0, 1>>, <<1, 1, 1>>, <<1, 2, 1>>, <<1, 0, 2>>, <<1, 1, 3>>, <<2, 0, 1>>, <<2, 1, 1>>}
 FailQ == {<<1, 0, 2>>}
+\* thorough exhaustive: two accounts, five transactions, one admin op
+UM == {<<1, 0, 1>>, <<1, 1, 1>>, <<1, 0, 2>>, <<2, 0, 1>>, <<2, 1, 1>>}
 \* large: simulation
 UL == {<<a, n, 1>> : a \in A2, n \in 0..3} \cup {<<a, n, 2>> : a \in A2, n \in 0..1} \cup {<<1, 1, 3>>, <<2, 2, 3>>}
 FailL == {<<a, n, 2>> : a \in A2, n \in 0..1}
